@@ -42,6 +42,18 @@ LOCAL_EVAL = [
     ("((lambda (m) (= (eval '(m 1 2)) (eval (macroexpand '(m 1 2))))) (macro (a b) (list 'add a b)))", "t"),
 ]
 
+# macros whose expansion is again a call of a macro, many times over: the expansion is repeated until NOTHING changes,
+# however many passes that takes; (definitions, expression, printed value)
+CHAIN_DEFS = ("(define 'countdown (macro (n) (if (= n 0) (list 'quote 'done) (list 'countdown (substract n 1)))) \"\") "
+              "(define 'my-list (macro (& xs) (if xs (list 'cons (car xs) (cons 'my-list (cdr xs))) nil)) \"\") ")
+CHAINS = []
+for _n in (3, 40, 70, 130, 400):
+    CHAINS.append((CHAIN_DEFS, f"(countdown {_n})", "done"))
+    CHAINS.append((CHAIN_DEFS, f"(macroexpand '(countdown {_n}))", "(quote done)"))
+    CHAINS.append((CHAIN_DEFS, f"((lambda (x) (list (= (macroexpand (macroexpand x)) (macroexpand x)) (= (eval x) (eval (macroexpand x))))) '(countdown {_n}))", "(t t)"))
+for _n in (5, 80, 200):
+    CHAINS.append((CHAIN_DEFS, f"(length (my-list {' '.join(str(i) for i in range(_n))}))", str(_n)))
+
 def wrap_monitors(form):
     """on the implementation: value of the form, value of its expansion, expansion twice vs once"""
     q = "'" + form if not form.startswith("'") else "(quote " + form + ")"
@@ -55,6 +67,7 @@ def run(tier, seed):
     rng = Rng(seed, 9)
     n = 250 if tier == "quick" else 4000
     progs = list(FIXED_FORMS) + [p for p, _ in LOCAL_EVAL]
+    chain_progs = [d + e for d, e, _ in CHAINS if "400" not in e and "200" not in e]
     stats = {}
     feats = {"prelude", "let", "macros", "inline_macro", "trap", "signal", "closure", "hof", "eval"}
     for i in range(n):
@@ -62,6 +75,7 @@ def run(tier, seed):
         progs.append(p)
         for k, v in st.items():
             stats[k] = stats.get(k, 0) + v
+    progs += chain_progs
     answers, parsed, bad = evalcorr.correspond("c09", progs)
     hangs = [i for i, r in enumerate(parsed) if r.get("special") == "timeout"]
     crashes = [i for i, r in enumerate(parsed) if r.get("special") in ("panic", "crash")]
@@ -82,6 +96,19 @@ def run(tier, seed):
         if got != want:
             rep.violation(f"eval of a form inside a closure is not expansion in the caller's environment followed by evaluation: {p} gives {got if got is not None else pa[:120]}, expected {want}",
                           {"program": p, "expected": want, "observed": pa[:300]})
+    chain_answers = run_driver_cases(evalcorr.driver_lines([d + "(print " + e + ")" for d, e, _ in CHAINS]), timeout=30.0)
+    rep.evaluations += len(CHAINS)
+    for (d, e, want), pa in zip(CHAINS, chain_answers):
+        rr = dump.split_run_answer(pa)
+        got = None
+        if "results" in rr and rr["results"] and rr["results"][-1][0] == "ok":
+            try:
+                got = dump.text_of(dump.parse_dump(rr["results"][-1][1]))
+            except dump.Truncated:
+                got = None
+        if got != want:
+            rep.violation(f"a macro whose expansion needs many passes is not expanded to its fixpoint: {e} gives {got if got is not None else pa[:160]}, expected {want}",
+                          {"program": d + e, "expected": want, "observed": pa[:300]})
     # meaning + idempotence monitors on the implementation
     local_eval = set(p for p, _ in LOCAL_EVAL)    # their expansions contain macro OBJECTS, on which = is not reflexive (C13 is about data free of functions)
     single = [p for p in progs if p.count("(define ") == 0 and p not in local_eval][: (150 if tier == "quick" else 1500)]
